@@ -4,6 +4,7 @@
 import SmsVerif.Lemmas.Split
 import SmsVerif.Lemmas.SplitCount
 import SmsVerif.Props.C14
+import SmsVerif.Gen.Tables
 
 namespace SmsVerif.C07
 open SmsVerif SmsVerif.Split
@@ -167,6 +168,15 @@ theorem C07_refusal_plain (d : List Nat) (per ref : Nat) (hper : 0 < per) :
   ⟨fun h => C07_accepted_when_short_parts_suffice _ d per 0 ref hper (noBoundary_backs d per) (by simpa using h),
    fun h => C07_refused_when_full_parts_do_not_suffice _ d per ref hper h⟩
 
+/-- the UCS-2 window with the capacity as the source spells it (`Gen.dc_SplitBy134`, regenerated on
+    every run): if the constant changes, this obligation is re-proved against the new value or fails -/
+theorem C07_refusal_window_ucs2_source (d : List Nat) (ref : Nat) :
+    (d.length ≤ 255 * (Gen.dc_SplitBy134 - 2) → ∃ parts, splitUnits ucs2Boundary d Gen.dc_SplitBy134 ref = .ok parts) ∧
+    (255 * Gen.dc_SplitBy134 < d.length → splitUnits ucs2Boundary d Gen.dc_SplitBy134 ref = .error .tooManyParts) := by
+  have hc : 2 < Gen.dc_SplitBy134 := by decide
+  exact ⟨fun h => C07_accepted_when_short_parts_suffice _ d _ 2 ref hc (ucs2Boundary_backs d _) h,
+    fun h => C07_refused_when_full_parts_do_not_suffice _ d _ ref (by omega) h⟩
+
 /-- inside the window the naive count ⌈n/per⌉ is not the number of parts: three surrogate pairs,
     capacity 6 → three parts, not two -/
 example : (cutPoints ucs2Boundary [0xD8, 0, 0xDC, 0, 0xD8, 0, 0xDC, 0, 0xD8, 0, 0xDC, 0] 6 13 0).length = 3 := by decide
@@ -264,6 +274,7 @@ open SmsVerif.C07
 #print axioms C07_refusal_window_gb18030
 #print axioms C07_refusal_window_gsm
 #print axioms C07_refusal_plain
+#print axioms C07_refusal_window_ucs2_source
 #print axioms C07_parse_hdr6
 #print axioms C07_parse_hdr7
 #print axioms C07_parse_part
